@@ -140,9 +140,13 @@ fn run_case(case_id: usize, start: usize, lens: &[usize], seed: u64, orphan_fram
             errors += 1000;
             break;
         }
-        match reader.read_record::<RawEntry>() {
-            Ok(Some(entry)) => read.push(json!([entry.0.len(), digest(entry.0)])),
-            Ok(None) => break,
+        // go_next + record: the two primitives read_record is made of
+        match reader.go_next() {
+            Ok(true) => match reader.record::<RawEntry>() {
+                Some(entry) => read.push(json!([entry.0.len(), digest(entry.0)])),
+                None => errors += 1,
+            },
+            Ok(false) => break,
             Err(_) => errors += 1,
         }
     }
